@@ -3,6 +3,24 @@
 
 let split_on c s = String.split_on_char c s
 
+let rec take n l = if n = 0 then [] else match l with [] -> [] | x :: t -> x :: take (n - 1) t
+let rec drop n l = if n = 0 then l else match l with [] -> [] | _ :: t -> drop (n - 1) t
+let parse_fail (a : string list) : (int * int) option =
+  List.fold_left (fun acc f ->
+    if String.length f > 7 && String.sub f 0 7 = "failat=" then
+      (match String.split_on_char '@' (String.sub f 7 (String.length f - 7)) with
+       | [k; s] -> Some (int_of_string k, int_of_string s) | _ -> acc)
+    else acc) None a
+(* run `ops` with the fault schedule armed for exactly the operation at index sidx *)
+let run_scheduled run arm st0 ops fail =
+  match fail with
+  | None -> run st0 ops
+  | Some (k, sidx) ->
+      let (s1, st1) = run st0 (take sidx ops) in
+      let (s2, st2) = run (arm st1 (Some (nat_of_int k))) (take 1 (drop sidx ops)) in
+      let (s3, st3) = run (arm st2 None) (drop (sidx + 1) ops) in
+      (s1 @ s2 @ s3, st3)
+
 let elt_info = function
   | "c" -> (2, int_of_n local_length_char)
   | "w" -> (8, int_of_n local_length_wchar)
@@ -43,16 +61,9 @@ let buf_case a =
   let ty = List.nth a 0 and pool = int_of_string (List.nth a 1) in
   let (width, l) = elt_info ty in
   let ops = List.map (parse_bop width) (split_on ';' (List.nth a 2)) in
-  let fail =
-    match a with
-    | [_; _; _; f] when String.length f > 7 && String.sub f 0 7 = "failat=" ->
-        (match split_on '@' (String.sub f 7 (String.length f - 7)) with
-         | [k; s] -> Some (int_of_string k, int_of_string s)
-         | _ -> None)
-    | _ -> None in
-  ignore fail;
+  let fail = parse_fail a in
   let lnat = nat_of_int l and pnat = nat_of_int pool in
-  let (steps, stf) = run_history lnat ops pnat store0 in
+  let (steps, stf) = run_scheduled (fun st o -> run_history lnat o pnat st) with_fail store0 ops fail in
   (* model line *)
   let died = List.find_opt (fun s -> match s.s_result with Abort _ | Fault _ -> true | _ -> false) steps in
   let m =
@@ -104,7 +115,7 @@ let ss_case a =
   let pool = int_of_string (List.nth a 0) in
   let ops = List.map parse_sop (split_on ';' (List.nth a 1)) in
   let stk = nat_of_int (int_of_n stack_string_size) and pnat = nat_of_int pool in
-  let (steps, stf) = run_shistory stk ops pnat sstate0 in
+  let (steps, stf) = run_scheduled (fun st o -> run_shistory stk o pnat st) swith_fail sstate0 ops (parse_fail a) in
   let pr_so i = function
     | None -> Printf.sprintf ";%d=-" i
     | Some o -> Printf.sprintf ";%d=%s:%d:%s" i (hex_of_bytes o.so_bytes) (int_of_nat o.so_size) (if o.so_own then "L" else "H") in
@@ -168,26 +179,9 @@ let str_case a =
   let pool = int_of_string (List.nth a 0) in
   let parsed = List.map parse_top (split_on ';' (List.nth a 1)) in
   let ops = List.map fst parsed and args = List.map snd parsed in
-  let fail =
-    match a with
-    | [_; _; f] when String.length f > 7 && String.sub f 0 7 = "failat=" ->
-        (match split_on '@' (String.sub f 7 (String.length f - 7)) with
-         | [k; s] -> Some (int_of_string k, int_of_string s) | _ -> None)
-    | _ -> None in
   let l = int_of_n local_length_char in
   let lnat = nat_of_int l and pnat = nat_of_int pool in
-  (* with a fault schedule: run the prefix, arm the schedule, run the faulted op, disarm, run the rest *)
-  let run_from st ops = run_thistory lnat ops pnat st in
-  let (steps, stf) =
-    match fail with
-    | None -> run_from store0 ops
-    | Some (k, sidx) ->
-        let rec take n l = if n = 0 then [] else match l with [] -> [] | x :: t -> x :: take (n - 1) t in
-        let rec drop n l = if n = 0 then l else match l with [] -> [] | _ :: t -> drop (n - 1) t in
-        let (s1, st1) = run_from store0 (take sidx ops) in
-        let (s2, st2) = run_from (with_fail st1 (Some (nat_of_int k))) (take 1 (drop sidx ops)) in
-        let (s3, st3) = run_from (with_fail st2 None) (drop (sidx + 1) ops) in
-        (s1 @ s2 @ s3, st3) in
+  let (steps, stf) = run_scheduled (fun st o -> run_thistory lnat o pnat st) with_fail store0 ops (parse_fail a) in
   let prev = ref (Array.make pool None) in
   let pr_t args stp =
     let cur = Array.of_list (List.map (fun x -> x) stp.t_objs) in
